@@ -73,6 +73,22 @@ def run(ctx):
               f"{len(clashes)} pairs keep their insertion order, e.g. {clashes[:3]}: the sort key does not separate them, so equal "
               "compositions can have different Hill forms", s_key, sample={"pairs checked": npairs})
     ctx.unit("atom_pairs", npairs)
+    # the caller's mapping is the caller's: formula(counts) neither empties nor reorders it, and the same mapping gives the
+    # same formula when it is used again
+    by_sym = {}
+    for a_ in U:
+        by_sym.setdefault(str(I.getattr(a_, "symbol")), a_)
+    probe_atoms = [by_sym[s_] for s_ in ("C", "H", "O", "Fe") if s_ in by_sym] or list(U)[:3]
+    counts = {a_: sp.Symbol(f"n{k_}", positive=True) for k_, a_ in enumerate(probe_atoms)}
+    mine = dict(counts)
+    first = I.call(fm, [mine], {})
+    ctx.check(list(mine.items()) == list(counts.items()), "R1", "formula(counts) leaves the caller's mapping as it was",
+              f"the mapping now holds {[(ident(I, k_), v_) for k_, v_ in mine.items()]}", fsite(ctx, "formulas.formula"))
+    second = I.call(fm, [mine], {})
+    a1, a2 = I.getattr(first, "atoms"), I.getattr(second, "atoms")
+    ctx.check(set(a1) == set(counts) == set(a2) and all(a1[k_] == counts[k_] == a2[k_] for k_ in counts), "R1",
+              "the same mapping used twice gives the same composition both times", f"{ {ident(I, k_): v_ for k_, v_ in a2.items()} } the second time",
+              fsite(ctx, "formulas.formula"))
 
     # ---- R3 order ---------------------------------------------------------------------
     order = [p[1] for p in conv({a: sp.Integer(1) for a in U})]
